@@ -7,6 +7,7 @@ import (
 	"github.com/jotaen/klog/klog"
 	"github.com/jotaen/klog/klog/parser"
 	"github.com/jotaen/klog/klog/parser/txt"
+	"github.com/jotaen/klog/klog/service/period"
 
 	sm "klogverif/specmodel"
 )
@@ -151,4 +152,8 @@ func errSummary(errs []txt.Error) string {
 // parseSerial is the plain serial parser (panics propagate to the caller's tryRun).
 func parseSerial(text string) ([]klog.Record, []txt.Block, []txt.Error) {
 	return parser.NewSerialParser().Parse(text)
+}
+
+func cliPeriod(pattern string) (period.Period, error) {
+	return period.NewPeriodFromPatternString(pattern)
 }
